@@ -25,4 +25,15 @@ CHECKS = {
         "note": COMMON_NOTE + "Exhaustive: nothing is sampled for this property.",
         "technique": "Lean 4 theorems (decide +kernel over the full domain, omega range lemmas) + exhaustive model/code correspondence",
     },
+    "C12": {
+        "text": "Proved on the model: the Q1/Q2 expression trees translated from nonshear.py on every run denote the textbook functions over R, "
+                "have no zero denominator for Q>0 and are bounded (0<Q1<1, 0<Q2<=1, 1-e^-Q >= Q/(1+Q)); an abstract IEEE-754 special-value "
+                "semantics proves that the spelling shipped before fix 9d0159a is NaN whenever exp Q overflows and that the current one is 0 "
+                "there; thermal terms tend to 0 as T->0+. PARTIAL: IEEE finiteness between the overflow regimes, rounding, library "
+                "exceptions and dtypes are outside any theorem and are covered by a sweep of the real Calculator (interpolators x orders x "
+                "systems x temperature grids x component sets) with the property statement as oracle.",
+        "note": COMMON_NOTE + "The IEEE class transfer tables of the model are validated against numpy on sampled doubles every run "
+                "(a test, not a proof). qha and scipy are external. Known finding: interpolator 'hermite' cannot run.",
+        "technique": "Lean 4 theorems on translated expression trees (real analysis + decide over an abstract IEEE domain) + end-to-end sweep oracle",
+    },
 }
